@@ -30,7 +30,7 @@ Inductive case :=
 (* the whole path on a connection's byte stream through the real SNIProxy.ServeTCP
    (peek 9 / size / read exactly that many / parse): impl = Ok host when Lookup was
    called with that host, Err 0 when the connection was dropped before routing *)
-| CStream (stream : str) (impl : outcome str)
+| CStream (stream : str) (impl : outcome str) (tls : option str)
 (* a hello generated as an AST and encoded by the harness's own Go encoder:
    the Coq encoder must produce the same bytes (ties the spec-side encoder to an
    independent one and, through [tls], to crypto/tls) *)
@@ -64,7 +64,7 @@ Definition check_case (c : case) : N :=
                   | Err _ => match tls with Some _ => false | None => true end
                   end in
       verdict same spec None (match m with Ok (_ :: _) => true | _ => false end)
-  | CStream stream impl =>
+  | CStream stream impl tls =>
       let m := match sni_route_name stream with
                | Ok (_, []) => Err 0          (* "server_name missing": no Lookup *)
                | Ok (_, name) => Ok name
@@ -72,7 +72,13 @@ Definition check_case (c : case) : N :=
                | Panic => Panic
                end in
       let same := out_eqb beq impl m in
-      let spec := match impl with Panic => false | _ => true end in
+      (* a standard TLS server fed the same stream saw name [t]: a non-empty [t] must be
+         what the proxy routes on; a crash is never acceptable *)
+      let spec := match impl with
+                  | Panic => false
+                  | Ok n => match tls with Some t => beq n t | None => true end
+                  | Err _ => match tls with Some (_ :: _) => false | _ => true end
+                  end in
       verdict same spec None (is_ok m)
   | CHello h sni data impl tls =>
       let m := read_server_name (enc_handshake h) in
